@@ -162,6 +162,10 @@ fn main() {
             for _ in 0..n { len = obs::obs(&mut r.subject, &w.uni, &obs::ObsCfg::default()).len(); }
             println!("obs: {:.3} ms ({} bytes, {} lines, uni h32={} addrs={} inscs={})", t.elapsed().as_secs_f64() * 1e3 / n as f64, len, obs::obs(&mut r.subject, &w.uni, &obs::ObsCfg::default()).lines().count(), w.uni.h32.len(), w.uni.addrs.len(), w.uni.inscs.len());
             let t = util::now();
+            let cfgp = obs::ObsCfg { probes: explore::view_probes(), ..Default::default() };
+            for _ in 0..n { len = obs::obs(&mut r.subject, &w.uni, &cfgp).len(); }
+            println!("obs with view probes: {:.3} ms ({} bytes)", t.elapsed().as_secs_f64() * 1e3 / n as f64, len);
+            let t = util::now();
             for _ in 0..n { let _ = r.check_path(&path, true); }
             println!("check_path: {:.3} ms", t.elapsed().as_secs_f64() * 1e3 / n as f64);
             let t = util::now();
